@@ -231,7 +231,7 @@ def run_unit(args):
         except Unsupported as e:
             res['error'] = 'outside subset: %s' % (e,)
         timeout_ms = 20000 if tier == 'quick' else 60000
-        res['obligations'] = discharge(ctx, timeout_ms, 30 if tier == 'quick' else 90)
+        res['obligations'] = discharge(ctx, timeout_ms, 12 if tier == 'quick' else 90)
         if res['error']:
             # obligations stated before the unsupported construct are still meaningful;
             # the unit as a whole is undecided
